@@ -49,6 +49,9 @@ func vxIsSym(s string) bool
 func vxRun(f func()) string
 func vxRunMsg() string
 func vxRunCode() int
+func vxTraceChan(ch interface{})
+func vxTraceMutex(p interface{})
+func vxTraceMark(s string)
 func vxYield()
 func vxPreemptBudget(n int)
 func vxMapOrder(funcs string)
